@@ -145,7 +145,15 @@ class GlomError(Exception):
         # defined in pure-python as well as C
         exc_type = type(exc)
         bases = (GlomError,) if issubclass(GlomError, exc_type) else (exc_type, GlomError)
-        exc_wrapper_type = type(f"GlomError.wrap({exc_type.__name__})", bases, {})
+
+        def wrapper_str(self):
+            # exception types that define their own __str__ (KeyError, OSError, ...) come first in
+            # the wrapper's MRO: once finalized, the message is still GlomError's
+            if getattr(self, '_finalized_str', None) or getattr(self, '_scope', None) is not None:
+                return GlomError.__str__(self)
+            return exc_type.__str__(self)
+
+        exc_wrapper_type = type(f"GlomError.wrap({exc_type.__name__})", bases, {'__str__': wrapper_str})
         try:
             wrapper = exc_wrapper_type(*exc.args)
             if wrapper.args != exc.args:  # constructor rewrites its args: not a faithful re-creation
